@@ -148,18 +148,40 @@ def setup():
     return _env
 
 
-def run_history(hist, acc, prime=True):
+FOREIGN_OPS = {"spawn", "exit", "reap", "vanish", "new", "isrun", "q", "iter", "step", "boot", "clear", "wait", "cmp", "visit", "pids"}
+
+
+def foreign_variant(hist, rng):
+    """The same history seen through the procfs of another system (PROCFS_PATH=/host/proc): only queries make sense there,
+    and wait() - which asks our own kernel - answers at once without knowing anything about the process."""
+    out = []
+    nh = 0
+    for op in hist:
+        if op[0] not in FOREIGN_OPS or (op[0] == "q" and op[2] in ("nice",)):
+            continue
+        out.append(op)
+        if op[0] == "new":
+            nh += 1
+        if nh and rng.random() < 0.25:
+            out.append(("wait", rng.randrange(nh)))
+    return out
+
+
+def run_history(hist, acc, prime=True, foreign=False):
     env = setup()
     H = env["H"]
     viols = []
     nontrivial = False
     w = H.World(env["ps"], prime=prime)
+    if foreign:
+        w.t.foreign = True
+        acc.count("histories_on_a_foreign_procfs")
     step_ticks = []
     reuse_ticks = {}
     with w:
         for op in hist:
             op = tuple(op)
-            if op[0] in ("isrun", "q", "sig"):
+            if op[0] in ("isrun", "q", "sig", "wait"):
                 hi = op[1]
                 if hi == -1:
                     hi = len(w.handles) - 1
@@ -241,6 +263,11 @@ def run_history(hist, acc, prime=True):
                     mech += ":after_clock_step"
                 viols.append((mech, f"history={[list(o) for o in hist]} final is_running(h{i}) res={rec['res']} model={rec['model']}"))
     case = dict(hist=[list(o) for o in hist])
+    if any(o[0] == "epoch0" for o in hist):
+        viols = [(m + ":boot_time_zero", d) for m, d in viols]
+    if foreign:
+        case["foreign"] = True
+        viols = [(m + ":foreign_procfs", d) for m, d in viols]
     acc.case(case, nontrivial, viols, sample=dict(case, records=[H.summarize(r) for r in w.records][:25]))
 
 
@@ -271,6 +298,11 @@ def fresh_histories():
                 [("iter", "keep"), ("step", 7), ("visit", "proc"), ("iter", "keep"), ("isrun", 0)],
                 [("step", 5), ("step", -5), ("new", PID), ("boot",), ("step", 9), ("boot",), ("new", PID)]):
         out.append(pre + mid + [("cmp",)])
+    # a machine whose clock starts at the epoch (no RTC) and is set later (NTP): the boot time first seen is 0
+    for mid in ([("new", PID), ("step", 1_700_000_000), ("new", PID), ("isrun", 0)],
+                [("new", PID), ("boot",), ("step", 1_700_000_000), ("boot",), ("new", PID), ("isrun", 0), ("isrun", 1)],
+                [("iter", "keep"), ("step", 86400), ("iter", "keep"), ("new", PID), ("isrun", 0)]):
+        out.append([("epoch0",)] + pre + mid + [("cmp",)])
     return out
 
 
@@ -447,13 +479,16 @@ def run_shard(shard):
         acc.exhaustive = True
     elif k == "rand":
         for i in range(shard["start"], shard["start"] + shard["count"]):
-            run_history(gen_random(harness.rng_for(shard["seed"], "c02", i)), acc)
+            h_ = gen_random(harness.rng_for(shard["seed"], "c02", i))
+            run_history(h_, acc)
+            if i % 8 == 0:
+                run_history(foreign_variant(h_, harness.rng_for(shard["seed"], "c02f", i)), acc, foreign=True)
     elif k == "fresh":
         run_fresh(shard, acc)
     elif k == "cases":
         first = True
         for case in shard["cases"]:
             fresh = bool(shard.get("fresh") or case.get("fresh")) and first
-            run_history([tuple(o) for o in case["hist"]], acc, prime=not fresh)
+            run_history([tuple(o) for o in case["hist"]], acc, prime=not fresh, foreign=bool(case.get("foreign")))
             first = False
     return acc.result()
